@@ -51,6 +51,12 @@ def ev_call(ex, st, e, cx, k):
             g = ex.resolve_global(cx, f.value.id)
             if g is not None and g[0] == 'module':
                 return module_function(ex, st, g[1], f.attr, e, cx, k)
+            if g is not None and g[0] == 'extern' and g[1] == 'packaging' and g[2] == 'version' and f.attr == 'parse':
+                # packaging.version.parse: trusted -- a parsed version is its position in the semantic-version order
+                def fv(st, v):
+                    s_ = ex.coerce(v, STR) if v.ty.kind != 'str' else v
+                    return k(st, SV(T.Ty('version'), ex.uf('semver_rank', z3.StringSort(), z3.RealSort())(s_.z)))
+                return ex.ev(st, e.args[0], cx, fv)
             if g is not None and g[0] == 'class':
                 ci = g[1]
                 # nested class constructor  LabelScope.LabelInfo(...)
@@ -147,6 +153,15 @@ def spec_call(ex, st, e, cx, k):
         cn = e.args[1].value if isinstance(e.args[1], ast.Constant) else e.args[1].id
         ids = [ex.repo.class_ids[cn]]
         return k(st, SV(BOOL, z3.And(v.z != 0, ex.clsof(v.z) == ids[0])))
+    if nm in ('cfg_int', 'cfg_str', 'cfg_bool'):
+        v = ex.pure(st, e.args[0], cx)
+        return k(st, ex.coerce(v, {'cfg_int': INT, 'cfg_str': STR, 'cfg_bool': BOOL}[nm]))
+    if nm == 'semver_lt':
+        a, b = [ex.pure(st, x, cx) for x in e.args]
+        rk = ex.uf('semver_rank', z3.StringSort(), z3.RealSort())
+        a = ex.coerce(a, STR) if a.ty.kind != 'str' else a
+        b = ex.coerce(b, STR) if b.ty.kind != 'str' else b
+        return k(st, SV(BOOL, rk(a.z) < rk(b.z)))
     if nm in ('path_exists', 'path_join'):
         vs = [ex.pure(st, a, cx) for a in e.args]
         if nm == 'path_exists':
